@@ -41,21 +41,21 @@ def main():
     rc0, out0 = sh('/venv/bin/python %s' % demo, wt)
     meta['demo_without_patch_rc'] = rc0
     meta['confirmed'] = ('passed' in meta['tests_with_patch'] and 'failed' not in meta['tests_with_patch'] and rc1 == 1 and rc0 == 0)
-    # against /repo
-    rc, out = sh('git -C /repo status --porcelain')
-    if out.strip():
-        print('REFUSING: /repo is not clean:\n' + out)
-        return 2
-    rc, out = sh('git -C /repo apply %s' % patch)
-    meta['patch_applies_to_repo'] = rc == 0
+    # against the current /repo tree: a scratch copy with the patch applied (VERIF_REPO), removed afterwards, so that
+    # builders working against /repo at the same time are not disturbed (same effect as git apply / checkout on /repo)
+    import tempfile
+    tmp = tempfile.mkdtemp(prefix='seedrepo_', dir='/tmp')
     try:
+        sh('cp -r /repo/. %s/' % tmp)
+        rc, out = sh('git apply %s' % patch, tmp)
+        meta['patch_applies_to_repo'] = rc == 0
         if rc == 0:
             for c in checks:
-                rcc, outc = sh('./check %s quick' % c, VERIF)
+                rcc, outc = sh('VERIF_REPO=%s ./check %s quick' % (tmp, c), VERIF)
                 vio = [l for l in outc.split('\n') if l.startswith('VIOLATION') or l.startswith('  #')]
                 meta['ran'].append({'check': './check %s quick' % c, 'rc': rcc, 'violation_lines': vio[:8], 'tail': outc.strip().split('\n')[-1]})
     finally:
-        sh('git -C /repo checkout -- .')
+        sh('rm -rf %s' % tmp)
     meta['detected_by'] = [r['check'].split()[1] for r in meta['ran'] if r['rc'] == 1]
     dst = os.path.join(VERIF, 'seeded', '%s-%s' % (pid, n))
     os.makedirs(dst, exist_ok=True)
